@@ -12,6 +12,21 @@ ENG = {
 
 # id: (engine, category, technique, level text, level note, design ref)
 CHECKS = {
+ "C03": ("E3", "model_checking",
+   "exhaustive enumeration of certificate placements into the six named stores (<= 2 populated) x every store list of length 1..3 (quick 1..2) x second/wildcard statement listing the other stores x scheme x format x chain shape, on the real verifier over the real on-disk trust store behind a logging decorator; set-membership reference model + call-log clauses",
+   "Every case is one real verifier.Verify over real trust-store directories; the authenticity result and the (type, name) sequence of GetCertificates calls are compared with the membership model (listed stores of the scheme's type, all must load, some chain certificate byte-equal to a stored one).",
+   "Trusted: the membership model in harness/c03; no timestamp path is exercised (tsa stores must not be loaded); more than two populated stores / more than three statements are outside the bound.",
+   "DESIGN.md section 5 C03"),
+ "C05": ("E3", "model_checking",
+   "exhaustive enumeration of all revocation result vectors over {OK, NonRevokable, Unknown, Revoked, undefined}^n, n=1..4, x method annotations x per-server errors x validator error x validator interface x action x scheme x format on the real verifier with a scripted validator; 3-line aggregation model + call-log clauses",
+   "Every vector of the quantifier (and an undefined status code) is answered by a scripted validator to the real verifier.Verify; the revocation result, overall verdict, named certificate and the options received by the validator (complete chain, signing time only for signing-authority) are compared with the aggregation model.",
+   "Trusted: the aggregation model in harness/c05, lib/mocks. Result slices of a length other than the chain's are outside the quantifier (DESIGN.md O-1).",
+   "DESIGN.md section 5 C05"),
+ "C13": ("E3", "model_checking",
+   "exhaustive enumeration of directory contents (all ordered entry sequences up to length 3, thorough 4, over 14 entry kinds x 3 store types) and of type x name x path-kind combinations with decoys, on the real on-disk trust store loader; reference loader over the generator's description",
+   "Each case builds a real store directory (files, sub-directories, symlinks, decoys around it) and calls the real X509TrustStore.GetCertificates; success/failure and the exact certificate multiset are compared with a reference loader that works on the generator's description of the directory, never on a re-scan of the disk.",
+   "Trusted: the reference loader in harness/c13; permission faults cannot be produced (run as root).",
+   "DESIGN.md section 5 C13"),
  "C01": ("E3", "model_checking",
    "exhaustive product enumeration (envelope families incl. all 4^4 re-assemblies and the complete Hamming-1/truncation neighbourhood x artifacts x metadata x enforcement maps x trust answers) on the real verifier, implication oracle with independent signature re-verification",
    "Every member of the stated finite product is verified by the real verifier.Verify / notation.VerifyBlob; whenever verification succeeds the oracle re-verifies the raw bytes with standard-library crypto only and compares payload type, target descriptor and required metadata. Bounded-exhaustive; envelopes at Hamming distance >= 2 that are not re-assemblies are outside the bound.",
